@@ -341,8 +341,9 @@ fn gen_tree(rng: &mut Rng, root: &Path, allow_big: bool) -> BTreeMap<String, Vec
     let mut files = BTreeMap::new();
     let n = rng.range(1, 6);
     for i in 0..n {
-        let dir = match rng.below(5) {
+        let dir = match rng.below(6) {
             0 => "tree".to_string(),
+            5 => format!("tree/{}", (0..rng.range(2, 4)).map(|k| format!("a rather long directory name, level {k} of {i}")).collect::<Vec<_>>().join("/")),
             1 => "tree/nested/deeper".to_string(),
             2 => "tree/with space".to_string(),
             3 => "tree/ünï".to_string(),
